@@ -117,6 +117,48 @@ class ObjectiveWiring(Contract):
         return out
 
 
+def _wiring_native_search(case, params, ob):
+    """real library: two tasks on one worker, two objectives (completion times) of the case's direction with weights
+    1 and 3, chosen so that the weighted optimum differs from the lexicographic one; the case's optimiser /
+    priority mode must reach the weighted optimum computed by brute force over the two task orders"""
+    import io, contextlib, warnings
+    from psvc import runner
+
+    if case["nobj"] != 2 or (case["optimizer"] == "optimize" and case["prio"] != "weight"):
+        return {"confirmed": False, "observation": {"not_searched": "only weighted-sum configurations have one optimum"}}
+    ps = runner.native_ps()
+    mx = case["dir"] == "max"
+    with contextlib.redirect_stdout(io.StringIO()), warnings.catch_warnings():
+        warnings.simplefilter("ignore")
+        pb = ps.SchedulingProblem(name="pb", horizon=5)
+        w = ps.Worker(name="w")
+        t1 = ps.FixedDurationTask(name="t1", duration=3)
+        t2 = ps.FixedDurationTask(name="t2", duration=2)
+        t1.add_required_resource(w)
+        t2.add_required_resource(w)
+        i1 = ps.IndicatorFromMathExpression(name="i1", expression=t1._end)
+        i2 = ps.IndicatorFromMathExpression(name="i2", expression=t2._end)
+        kind = "maximize" if mx else "minimize"
+        ps.Objective(name="o1", target=i1, weight=1, kind=kind)
+        ps.Objective(name="o2", target=i2, weight=3, kind=kind)
+        kw = dict(optimizer=case["optimizer"])
+        if case["optimizer"] == "optimize":
+            kw["optimize_priority"] = case["prio"]
+        try:
+            sol = ps.SchedulingSolver(problem=pb, **kw).solve()
+        finally:
+            runner.reset_z3_options()
+    if not sol:
+        return {"confirmed": True, "observation": {"configuration": kw, "result": "no solution for a feasible problem"}}
+    got = sol.tasks["t1"].end + 3 * sol.tasks["t2"].end
+    # the two orders: t1 then t2 -> ends (3, 5); t2 then t1 -> ends (5, 2): weighted 18 / 11
+    best = max(18, 11) if mx else min(18, 11)
+    return {"confirmed": got != best, "observation": {"configuration": kw, "weights": [1, 3], "ends": [sol.tasks["t1"].end, sol.tasks["t2"].end], "weighted_value": got, "optimum_by_enumeration": best}}
+
+
+ObjectiveWiring.native_search = staticmethod(_wiring_native_search)
+
+
 # ------------------------------------------------------------------------------ C15 / C14 configuration independence
 @register
 class ConfigIndependence(Contract):
@@ -248,7 +290,7 @@ class DebugCore(Contract):
     bounded = "problems with 2 tasks and 2..3 user constraints; unsat cores: every singleton, every pair and the whole set of tracked assertions"
 
     def cases(self, tier):
-        return [dict(extra=e, res=r) for e in (0, 1) for r in (False, True)] + [dict(extra=1, res=False, opt=True)]
+        return [dict(extra=e, res=r) for e in (0, 1) for r in (False, True)] + [dict(extra=1, res=False, opt=True), dict(extra=0, res=False, ind=True)]
 
     def scenario(self, ps, P, case):
         pb, t1, t2 = small_problem(ps, P, optional=False, resources=case["res"])
@@ -262,6 +304,11 @@ class DebugCore(Contract):
         cs = [ps.TaskStartAt(task=t1, value=P.int("a")), ps.TaskStartAt(task=t1, value=P.int("b"), name="second")]
         if case["extra"]:
             cs.append(ps.TaskEndBefore(task=t2, value=P.int("c")))
+        if case.get("ind"):
+            # constraints on an indicator are constraints of the problem like the others
+            ind = ps.IndicatorFromMathExpression(name="span", expression=t1._start + t2._end)
+            cs.append(ps.IndicatorBounds(indicator=ind, upper_bound=P.int("ub"), name="bounded"))
+            cs.append(ps.IndicatorTarget(indicator=ind, value=P.int("tg"), name="targeted"))
         if case["res"]:
             # a constraint holding several assertions (one per interval and busy interval)
             P.assume(P.int("u") >= 0)
@@ -372,6 +419,18 @@ def _debug_native_search(case, params, ob):
                 ps.TaskEndBefore(name="ends_early", task=t1, value=6)
             return pb
 
+    if case.get("ind"):
+        # a bound on an indicator that no schedule can meet: the diagnosis must name it
+        def build(only=None):  # noqa: F811
+            pb = ps.SchedulingProblem(name="pb", horizon=12)
+            t1 = ps.FixedDurationTask(name="t1", duration=3)
+            ind = ps.IndicatorFromMathExpression(name="span", expression=t1._end)
+            if only is None or "bounded" in only:
+                ps.IndicatorBounds(name="bounded", indicator=ind, upper_bound=2)
+            if only is None or "irrelevant" in only:
+                ps.TaskStartAfter(name="irrelevant", task=t1, value=0)
+            return pb
+
     buf = io.StringIO()
     with contextlib.redirect_stdout(buf):
         res = ps.SchedulingSolver(problem=build(), debug=True).solve()
@@ -383,7 +442,7 @@ def _debug_native_search(case, params, ob):
             m_ = re.search(r"name='([a-z_]+)'", seg)
             if m_:
                 blamed.add(m_.group(1))
-        blamed &= {"ends_early", "w_unavailable", "irrelevant", "maybe", "force"}
+        blamed &= {"ends_early", "w_unavailable", "irrelevant", "maybe", "force", "bounded"}
     with contextlib.redirect_stdout(io.StringIO()):
         alone = ps.SchedulingSolver(problem=build(only=blamed)).solve()
     bad = res is False and bool(alone)
@@ -775,6 +834,7 @@ def _callseq_native_search(case, params, ob):
             # afterwards; a schedule excluded by find_another_solution must not come back
             try:
                 solver = ps.SchedulingSolver(problem=pb, **kw)
+                reg_before = {k: sorted(getattr(pb, k)) for k in ("tasks", "workers", "constraints", "indicators", "objectives")}
                 asserted_f, seen, obs = False, [], []
                 for call in case["seq"] + ("another", "another") * ("another" in case["seq"]):
                     r = None
@@ -806,6 +866,10 @@ def _callseq_native_search(case, params, ob):
                             return {"confirmed": True, "observation": {"sequence": list(case["seq"]), "returned": obs, "violated": "find_another_solution returned a schedule that had been excluded before"}}
                         if call in ("solve", "another"):
                             seen.append(sig)
+                reg_after = {k: sorted(getattr(pb, k)) for k in reg_before}
+                if reg_after != reg_before and case["obj"] != "multi":
+                    grown = {k: [n for n in reg_after[k] if n not in reg_before[k]] for k in reg_before if reg_after[k] != reg_before[k]}
+                    return {"confirmed": True, "observation": {"sequence": list(case["seq"]), "violated": "the calls changed the problem object: a solver built later on the same problem sees another problem", "added_to_the_problem": grown}}
                 return {"confirmed": False, "observation": {"sequence": list(case["seq"]), "returned": obs}}
             except Exception as e:  # noqa
                 return {"confirmed": True, "observation": {"sequence": list(case["seq"]), "exception": f"{type(e).__name__}: {e}"}}
